@@ -58,6 +58,12 @@ def handleConcTable (line : String) : M Unit := do
   else if !(LockDiscipline table allMethods) then
     mismatch "conc:table" "LockDiscipline table = true (theorem UtreexoVerif.Props.C12Table.lockTable_ok)"
       s!"methods violating the lock discipline (with the lock contexts they can run in): {lockOffenders}"
+  else if !(SingleSection table allMethods [Method.«String», Method.«AllSubTreesToString»]) then
+    let offenders := (multiSection table allMethods).filter
+      (fun x => !([Method.«String», Method.«AllSubTreesToString»].contains x.1))
+    mismatch "conc:table" "every exported query/writer is one critical section (theorem UtreexoVerif.Props.C12Table.queries_single_section)"
+      ("exported methods composed of several critical sections: " ++
+        ", ".intercalate (offenders.map (fun x => s!"{methodName x.1} -> {x.2.map methodName}")))
 
 /-- the queries of the property text: all of them depend on the mutable state -/
 def stateQueries : List String :=
